@@ -13,7 +13,8 @@ the theorems of Props/C13.lean prove the result independent of it.  Core Lean on
   delDup           util/exec.go DelDupKey (first-seen position, last value)
   checkKV          executor/execenv.go checkKV (key set built from the receipt, every written key looked up)
   mergeInto        executor/localdb.go cacheDB.Merge (`for k, v := range db2.data { db.data[k] = v }`)
-  (pluginBase.flag, the cached enable flag of the global plugin instances, is listed as a site but not modelled)
+  checkFlag        executor/plugin.go pluginBase.checkFlag (cached enable flag of the GLOBAL plugin instances)
+  runHelpers       the helpers above composed for one block (two_runs_equal_partial)
   findByValue      types/executor.go ExecTypeBase.ActionName (`for k, v := range tm { if v == ty { return k } }`)
 
 `expectedSites` is the committed list of variation sites (regenerated from /repo's current source on every run
@@ -77,6 +78,52 @@ def findByValue {K V : Type} [DecidableEq V] (ty : V) : List (K × V) → Option
   | [] => none
   | (k, v) :: rest => if v = ty then some k else findByValue ty rest
 
+/-! ### pluginBase.checkFlag (stat / mvcc plugins): the only process-history dependent site -/
+
+inductive FlagRes where
+  | disabled
+  | err                          -- types.ErrDBFlag (the callers panic)
+  | ok (kv : List Nat)           -- the emitted flag KVs (values)
+  deriving Repr, DecidableEq
+
+/-- `cached` is `pluginBase.flag` of the GLOBAL plugin instance (0 = not loaded yet), `db` the flag stored in the local
+database of the chain being executed (0 = absent). Returns the outcome and the new cached value. -/
+def checkFlag (enable : Bool) (cached db height : Nat) : FlagRes × Nat :=
+  if !enable then (.disabled, cached) else
+  let c := if cached = 0 then db else cached
+  if height ≠ 0 ∧ c = 0 then (.err, c)
+  else if height = 0 then (.ok [1], 1)
+  else (.ok [], c)
+
+/-! ### one block through the modelled helpers -/
+
+/-- everything the Go runtime chooses in one execution of a block, as far as the modelled helpers are concerned. -/
+structure Sched (Name Hash K V : Type) where
+  pluginOrder : List Name              -- iteration order of `globalPlugins`
+  merkleArrivals : List (Nat × Hash)   -- arrival order of the merkle child results
+  workers : Nat                        -- runtime.NumCPU()
+  takes : List Nat                     -- which signature worker took which transaction
+  sigArrivals : List Bool              -- arrival order of the signature verdicts
+  mergeOrder : List (K × V)            -- iteration order of the per-transaction cache being merged
+
+/-- what the modelled helpers contribute to the result of executing one block. -/
+structure BlockOut (Name Hash K V : Type) where
+  plugins : List Name
+  children : List (Option Hash)
+  sigOk : Bool
+  kvs : List (K × V)
+  kvAllowed : Bool
+  cache : K → Option V
+
+def runHelpers {Name Hash K V : Type} [DecidableEq K] (le : Name → Name → Bool) (n : Nat) (receiptKVs : List (K × V))
+    (memset : List K) (cache0 : K → Option V) (s : Sched Name Hash K V) : BlockOut Name Hash K V :=
+  { plugins := sortI le s.pluginOrder
+    children := collect n s.merkleArrivals
+    sigOk := verifyLoop s.sigArrivals
+    kvs := delDup receiptKVs
+    kvAllowed := checkKV memset receiptKVs
+    cache := mergeInto cache0 s.mergeOrder }
+
 /-! ### the committed site list -/
 
 def expectedSites : List (String × String) := [
@@ -88,8 +135,8 @@ def expectedSites : List (String × String) := [
   ("field-write common/db/go_ssdb.go SsdbBench.write SsdbBench.writeCount", "benign: latency counters of the ssdb backend (not a configured backend of the execution path), only printed"),
   ("field-write common/db/go_ssdb.go SsdbBench.write SsdbBench.writeNum", "benign: latency counters of the ssdb backend (not a configured backend of the execution path), only printed"),
   ("field-write common/db/go_ssdb.go SsdbBench.write SsdbBench.writeTime", "benign: latency counters of the ssdb backend (not a configured backend of the execution path), only printed"),
-  ("field-write executor/plugin.go pluginBase.checkFlag pluginBase.flag", "history-dependent: process-local copy of the database enable flag kept in the GLOBAL plugin instance (globalPlugins); not modelled - its irrelevance for the emitted KV set is checked by the repeated-execution predicate (enableStat / enableMVCC configurations, warm processes that already executed another genesis, local KV set and database of height 0)"),
-  ("field-write executor/plugin.go pluginBase.checkFlag pluginBase.flag#2", "history-dependent: process-local copy of the database enable flag kept in the GLOBAL plugin instance (globalPlugins); not modelled - its irrelevance for the emitted KV set is checked by the repeated-execution predicate (enableStat / enableMVCC configurations, warm processes that already executed another genesis, local KV set and database of height 0)"),
+  ("field-write executor/plugin.go pluginBase.checkFlag pluginBase.flag", "history-dependent: process-local copy of the database enable flag kept in the GLOBAL plugin instance (globalPlugins); modelled by checkFlag: checkFlag_genesis_history_independent, checkFlag_history_independent_consistent, checkFlag_history_dependent_on_flagless_db; tied only by the repeated-execution predicate (enableStat / enableMVCC configurations, warm processes that already executed another genesis, local KV set and database of height 0)"),
+  ("field-write executor/plugin.go pluginBase.checkFlag pluginBase.flag#2", "history-dependent: process-local copy of the database enable flag kept in the GLOBAL plugin instance (globalPlugins); modelled by checkFlag: checkFlag_genesis_history_independent, checkFlag_history_independent_consistent, checkFlag_history_dependent_on_flagless_db; tied only by the repeated-execution predicate (enableStat / enableMVCC configurations, warm processes that already executed another genesis, local KV set and database of height 0)"),
   ("clock common/db/go_pegasus.go PegasusDB.Get time.Now", "benign: latency logging inside a database backend that is reachable only through the KV interface (not a configured backend of the execution path)"),
   ("clock common/db/go_pegasus.go PegasusDB.Get time.Since", "benign: latency logging inside a database backend that is reachable only through the KV interface (not a configured backend of the execution path)"),
   ("clock common/db/go_pegasus.go PegasusDB.Set time.Now", "benign: latency logging inside a database backend that is reachable only through the KV interface (not a configured backend of the execution path)"),
